@@ -142,4 +142,218 @@ theorem PMT_pack_eq (s : PMT) (h : PMT_WF s) :
   rw [Pkt_pack_eq' _ false hwp]
   rfl
 
+theorem Desc_unpack_bytes (d : Desc) (rest : Bytes) (h : Desc_WF d) :
+    Desc.unpack (Desc_bytes d ++ rest) = .ok (d, rest) := by
+  obtain ⟨t, ht, h1, h2⟩ := h
+  have hf : Fits DescriptorTag_FMT.codes [t, d.data.length] := by simp [Fits, DescriptorTag_FMT, Code.bound]; omega
+  have h0 : structUnpackFrom DescriptorTag_FMT (Desc_bytes d ++ rest) 0 = .ok [t, d.data.length] := by
+    have := structUnpackFrom_enc0 DescriptorTag_FMT [t, d.data.length] (d.data ++ rest) hf
+    simpa [encCodes, DescriptorTag_FMT, Code.size, Desc_bytes, Desc_tag, ht, List.append_assoc] using this
+  simp only [Desc.unpack, h0]
+  have hsz : DescriptorTag_FMT.size = 2 := rfl
+  have hsl : slice (Desc_bytes d ++ rest) 2 (2 + d.data.length) = d.data := by
+    unfold Desc_bytes
+    rw [List.append_assoc, List.append_assoc, ← List.append_assoc (encInt true 1 (Desc_tag d))]
+    exact slice_mid _ _ _ _ _ (by simp) (by simp)
+  have hdr : List.drop (2 + d.data.length) (Desc_bytes d ++ rest) = rest :=
+    drop_append_len _ _ _ (by simp [Desc_bytes_length])
+  simp only [hsz, hsl, hdr]
+  cases d; simp_all
+
+theorem decDescs_flatMap (ds : List Desc) (h : ∀ d ∈ ds, Desc_WF d) (fuel : Nat)
+    (hf : ds.length < fuel) : decDescs fuel (ds.flatMap Desc_bytes) = .ok ds := by
+  induction ds generalizing fuel with
+  | nil =>
+    cases fuel with
+    | zero => omega
+    | succ f => simp [decDescs]
+  | cons d ds ih =>
+    cases fuel with
+    | zero => omega
+    | succ f =>
+      have hpos : 0 < (List.flatMap Desc_bytes (d :: ds)).length := by
+        simp [List.flatMap_cons, Desc_bytes_length]; omega
+      unfold decDescs
+      rw [if_pos hpos, List.flatMap_cons, Desc_unpack_bytes d _ (h d (by simp))]
+      simp only
+      rw [ih (fun x hx => h x (by simp [hx])) f (by simp at hf; omega)]
+
+theorem Stream_unpack_bytes (x : Stream) (rest : Bytes) (h : Stream_WF x) :
+    Stream.unpack (Stream_bytes x ++ rest) = .ok (x, rest) := by
+  obtain ⟨h1, h2, h3⟩ := h
+  have hf : Fits PMTStream_FMT.codes [x.streamtype, x.elementary_pid + 0xE000, x.elementary_stream_descriptors.length + 0xF000] := by
+    simp [Fits, PMTStream_FMT, Code.bound]; omega
+  have h0 : structUnpackFrom PMTStream_FMT (Stream_bytes x ++ rest) 0 =
+      .ok [x.streamtype, x.elementary_pid + 0xE000, x.elementary_stream_descriptors.length + 0xF000] := by
+    have := structUnpackFrom_enc0 PMTStream_FMT [x.streamtype, x.elementary_pid + 0xE000, x.elementary_stream_descriptors.length + 0xF000]
+      (x.elementary_stream_descriptors ++ rest) hf
+    simpa [encCodes, PMTStream_FMT, Code.size, Stream_bytes, List.append_assoc] using this
+  simp only [Stream.unpack, h0]
+  have hsz : PMTStream_FMT.size = 5 := rfl
+  have e1 : (x.elementary_pid + 57344) % 8192 = x.elementary_pid := by omega
+  have e2 : (x.elementary_stream_descriptors.length + 61440) % 4096 = x.elementary_stream_descriptors.length := by omega
+  have hsl : slice (Stream_bytes x ++ rest) 5 (5 + x.elementary_stream_descriptors.length) = x.elementary_stream_descriptors := by
+    unfold Stream_bytes
+    rw [List.append_assoc, List.append_assoc, List.append_assoc,
+      ← List.append_assoc (encInt true 2 (x.elementary_pid + 57344)),
+      ← List.append_assoc (encInt true 1 x.streamtype)]
+    exact slice_mid _ _ _ _ _ (by simp) (by simp)
+  have hdr : List.drop (x.elementary_stream_descriptors.length + 5) (Stream_bytes x ++ rest) = rest :=
+    drop_append_len _ _ _ (by simp [Stream_bytes_length]; omega)
+  simp only [hsz, e1, e2, hsl, hdr]
+
+theorem decStreams_flatMap (ss : List Stream) (h : ∀ x ∈ ss, Stream_WF x) (tail : Bytes) (ht : tail.length = 4)
+    (fuel : Nat) (hf : ss.length < fuel) :
+    decStreams fuel (ss.flatMap Stream_bytes ++ tail) = .ok (ss, tail) := by
+  induction ss generalizing fuel with
+  | nil =>
+    cases fuel with
+    | zero => omega
+    | succ f => simp [decStreams, PMT_CRC_LEN, ht]
+  | cons x xs ih =>
+    cases fuel with
+    | zero => omega
+    | succ f =>
+      have hpos : PMT_CRC_LEN < (List.flatMap Stream_bytes (x :: xs) ++ tail).length := by
+        simp [List.flatMap_cons, Stream_bytes_length, PMT_CRC_LEN, ht]; omega
+      unfold decStreams
+      rw [if_pos hpos, List.flatMap_cons, List.append_assoc, Stream_unpack_bytes x _ (h x (by simp))]
+      simp only
+      rw [ih (fun y hy => h y (by simp [hy])) f (by simp at hf; omega)]
+
+def PMT_crc4 (s : PMT) : Bytes := encInt true 4 (crc32mpeg2 (PMT_body s))
+
+/-- what decoding the packed bytes gives: every field as encoded, `program_info_len` as `pack`
+    recomputed it, `_crc` the stored CRC -/
+def PMT_decoded (s : PMT) : PMT :=
+  { s with pkt := Pkt_decoded (PMT_pkt s), program_info_len := (PMT_dbytes s).length,
+           crc := some (crc32mpeg2 (PMT_body s)) }
+
+theorem PMT_hdr_length (s : PMT) : (PMT_hdr s).length = 12 := by simp [PMT_hdr]
+theorem PMT_body_length (s : PMT) : (PMT_body s).length + 1 = PMT_slen s := by
+  simp [PMT_body, PMT_hdr_length, PMT_slen]; omega
+
+theorem dbytes_zero (s : PMT) (h : (PMT_dbytes s).length = 0) : s.descriptor_tags = [] := by
+  unfold PMT_dbytes at h
+  cases hd : s.descriptor_tags with
+  | nil => rfl
+  | cons d ds => rw [hd] at h; simp [List.flatMap_cons, Desc_bytes_length] at h
+
+theorem flatMap_desc_len (ds : List Desc) : ds.length ≤ (ds.flatMap Desc_bytes).length := by
+  induction ds with
+  | nil => simp
+  | cons d ds ih => simp only [List.flatMap_cons, List.length_cons, List.length_append, Desc_bytes_length]; omega
+
+theorem flatMap_stream_len (ss : List Stream) : ss.length ≤ (ss.flatMap Stream_bytes).length := by
+  induction ss with
+  | nil => simp
+  | cons d ds ih => simp only [List.flatMap_cons, List.length_cons, List.length_append, Stream_bytes_length]; omega
+
+theorem PMT_unpack_bytes (s t : PMT) (h : PMT_WF s) (hs : s.pkt.sync = 0x47)
+    (hafc : s.pkt.adaption_ctrl = 1 ∨ s.pkt.adaption_ctrl = 3) :
+    PMT.unpack t (Pkt_bytes (PMT_pkt s)) = (PMT_decoded s, .ok true) := by
+  obtain ⟨hw, h1, h2, h3, h4, h5, h6, h7, h8, hd, hss, hl⟩ := h
+  have hwp : Pkt_WF (PMT_pkt s) := hw
+  have h2af : (PMT_pkt s).adaption_ctrl = 2 → (PMT_pkt s).adaption_field.isSome = true := by
+    intro c; have : s.pkt.adaption_ctrl = 2 := c; omega
+  have hafc' : (PMT_pkt s).adaption_ctrl = 1 ∨ (PMT_pkt s).adaption_ctrl = 3 := hafc
+  have hpl : (Pkt_decoded (PMT_pkt s)).payload =
+      encInt true 1 0 ++ (PMT_hdr s ++ (PMT_dbytes s ++ (PMT_sbytes s ++ (PMT_crc4 s ++ Pkt_stuffing (PMT_pkt s))))) := by
+    have e : (Pkt_decoded (PMT_pkt s)).payload = (PMT_pkt s).payload ++ Pkt_stuffing (PMT_pkt s) := by
+      simp only [Pkt_decoded, if_pos hafc']
+    rw [e]; simp [PMT_pkt, PMT_payload, PMT_body, PMT_crc4, List.append_assoc]
+  have hdl2 : (PMT_dbytes s).length < 4096 := by unfold PMT_slen at hl; omega
+  have hbl := PMT_body_length s
+  have hhl := PMT_hdr_length s
+  unfold PMT.unpack
+  rw [Pkt_unpack_bytes (PMT_pkt s) t.pkt hwp hs h2af]
+  simp only [hpl]
+  generalize hT : PMT_crc4 s ++ Pkt_stuffing (PMT_pkt s) = T
+  -- pointer field
+  have hptr : structUnpackFrom PMT_FMT_POINTER (encInt true 1 0 ++ (PMT_hdr s ++ (PMT_dbytes s ++ (PMT_sbytes s ++ T)))) 0
+      = .ok [0] := read_u8 _ rfl [] _ 0 (by omega) 0 rfl
+  -- fixed part of the section
+  have hf : Fits PMT_FMT.codes [s.tableid, s.syntax_indicator * 32768 + 3 * 4096 + PMT_slen s, s.program_number,
+      3 * 64 + s.version * 2 + s.current_next_indicator, s.sectionNo, s.last_section, 7 * 8192 + s.pcr_pid,
+      15 * 4096 + (PMT_dbytes s).length] := by
+    simp only [Fits, PMT_FMT, Code.bound, and_true]; omega
+  have hfx : structUnpackFrom PMT_FMT (encInt true 1 0 ++ (PMT_hdr s ++ (PMT_dbytes s ++ (PMT_sbytes s ++ T)))) (PMT_FMT_POINTER.size + 0)
+      = .ok [s.tableid, s.syntax_indicator * 32768 + 3 * 4096 + PMT_slen s, s.program_number,
+        3 * 64 + s.version * 2 + s.current_next_indicator, s.sectionNo, s.last_section, 7 * 8192 + s.pcr_pid,
+        15 * 4096 + (PMT_dbytes s).length] := by
+    have := structUnpackFrom_enc PMT_FMT _ (encInt true 1 0) (PMT_dbytes s ++ (PMT_sbytes s ++ T)) hf
+      (PMT_FMT_POINTER.size + 0) (by simp [PMT_FMT_POINTER, Fmt.size, codesSize, Code.size])
+    simpa [encCodes, PMT_FMT, Code.size, PMT_hdr, List.append_assoc] using this
+  simp only [hptr, hfx]
+  -- field arithmetic
+  have a1 : (s.syntax_indicator * 32768 + 3 * 4096 + PMT_slen s) % 4096 = PMT_slen s := by omega
+  have a2 : (s.syntax_indicator * 32768 + 3 * 4096 + PMT_slen s) / 32768 = s.syntax_indicator := by omega
+  have a3 : (3 * 64 + s.version * 2 + s.current_next_indicator) / 2 % 32 = s.version := by omega
+  have a4 : (3 * 64 + s.version * 2 + s.current_next_indicator) % 2 = s.current_next_indicator := by omega
+  have a5 : (7 * 8192 + s.pcr_pid) % 8192 = s.pcr_pid := by omega
+  have a6 : (15 * 4096 + (PMT_dbytes s).length) % 4096 = (PMT_dbytes s).length := by omega
+  simp only [a1, a2, a3, a4, a5, a6]
+  have hsz1 : PMT_FMT.size + PMT_FMT_POINTER.size + 0 = 13 := rfl
+  simp only [hsz1]
+  subst hT
+  have hc4 : (PMT_crc4 s).length = 4 := by simp [PMT_crc4]
+  have hsbl : (PMT_sbytes s).length + (PMT_dbytes s).length + 13 = PMT_slen s := by unfold PMT_slen; omega
+  -- descriptor loop
+  have hdsl : slice (encInt true 1 0 ++ (PMT_hdr s ++ (PMT_dbytes s ++ (PMT_sbytes s ++ (PMT_crc4 s ++ Pkt_stuffing (PMT_pkt s))))))
+      13 (13 + (PMT_dbytes s).length) = PMT_dbytes s := by
+    rw [← List.append_assoc (encInt true 1 0)]
+    exact slice_mid _ _ _ _ _ (by simp [hhl]) (by simp [hhl])
+  have hdescs : (if 0 < (PMT_dbytes s).length then decDescs ((PMT_dbytes s).length + 1) (PMT_dbytes s) else .ok [])
+      = .ok s.descriptor_tags := by
+    by_cases hz : 0 < (PMT_dbytes s).length
+    · rw [if_pos hz]
+      exact decDescs_flatMap _ hd _ (by have := flatMap_desc_len s.descriptor_tags; unfold PMT_dbytes; omega)
+    · rw [if_neg hz, dbytes_zero s (by omega)]
+  -- end of the section
+  have hE : PMT_slen s + PMT_HDR_LEN_NOT_INCL_IN_LEN + (13 + (PMT_dbytes s).length) - PMT_FMT.size - (PMT_dbytes s).length
+      = PMT_slen s + 4 := by
+    simp only [PMT_HDR_LEN_NOT_INCL_IN_LEN, PMT_FMT, Fmt.size, codesSize, Code.size]; omega
+  have hcrcbuf : slice (encInt true 1 0 ++ (PMT_hdr s ++ (PMT_dbytes s ++ (PMT_sbytes s ++ (PMT_crc4 s ++ Pkt_stuffing (PMT_pkt s))))))
+      (0 + PMT_FMT_POINTER.size) (PMT_slen s + 4 - PMT_CRC_LEN) = PMT_body s := by
+    have : encInt true 1 0 ++ (PMT_hdr s ++ (PMT_dbytes s ++ (PMT_sbytes s ++ (PMT_crc4 s ++ Pkt_stuffing (PMT_pkt s))))) =
+        encInt true 1 0 ++ (PMT_body s ++ (PMT_crc4 s ++ Pkt_stuffing (PMT_pkt s))) := by
+      simp [PMT_body, List.append_assoc]
+    rw [this]
+    exact slice_mid _ _ _ _ _ (by simp [PMT_FMT_POINTER, Fmt.size, codesSize, Code.size])
+      (by simp [PMT_CRC_LEN]; omega)
+  have hsbuf : slice (encInt true 1 0 ++ (PMT_hdr s ++ (PMT_dbytes s ++ (PMT_sbytes s ++ (PMT_crc4 s ++ Pkt_stuffing (PMT_pkt s))))))
+      (13 + (PMT_dbytes s).length) (PMT_slen s + 4) = PMT_sbytes s ++ PMT_crc4 s := by
+    have : encInt true 1 0 ++ (PMT_hdr s ++ (PMT_dbytes s ++ (PMT_sbytes s ++ (PMT_crc4 s ++ Pkt_stuffing (PMT_pkt s))))) =
+        (encInt true 1 0 ++ PMT_hdr s ++ PMT_dbytes s) ++ ((PMT_sbytes s ++ PMT_crc4 s) ++ Pkt_stuffing (PMT_pkt s)) := by
+      simp [List.append_assoc]
+    rw [this]
+    exact slice_mid _ _ _ _ _ (by simp [hhl]; omega) (by simp [hhl, hc4]; omega)
+  have hstreams : decStreams ((PMT_sbytes s ++ PMT_crc4 s).length + 1) (PMT_sbytes s ++ PMT_crc4 s)
+      = .ok (s.streams, PMT_crc4 s) :=
+    decStreams_flatMap _ hss _ hc4 _ (by have := flatMap_stream_len s.streams; simp only [PMT_sbytes, List.length_append]; omega)
+  have hcrcfit : Fits PMT_unpack_fmt0.codes [crc32mpeg2 (PMT_body s)] := by
+    have : crc32mpeg2 (PMT_body s) < 4294967296 := by unfold crc32mpeg2; omega
+    simp only [Fits, PMT_unpack_fmt0, Code.bound, and_true]; exact this
+  have hcrc : structUnpack PMT_unpack_fmt0 (PMT_crc4 s) = .ok [crc32mpeg2 (PMT_body s)] := by
+    have := structUnpack_enc PMT_unpack_fmt0 [crc32mpeg2 (PMT_body s)] hcrcfit
+    simpa [encCodes, PMT_unpack_fmt0, Code.size, PMT_crc4] using this
+  have hne : ¬ (PMT_body s).length = 0 := by omega
+  simp only [hdsl, hdescs, hE, hcrcbuf, hne, if_false, hsbuf, hstreams, hcrc]
+  simp [PMT_decoded]
+
+/-- re-encoding the decoded packet reproduces the bytes (the payload is rebuilt from the fields) -/
+theorem PMT_decoded_pack (s : PMT) (h : PMT_WF s) (hf : Pkt_used (PMT_pkt s) ≤ 188) :
+    PMT_WF (PMT_decoded s) ∧ Pkt_bytes (PMT_pkt (PMT_decoded s)) = Pkt_bytes (PMT_pkt s) := by
+  have hwd := (Pkt_decoded_bytes (PMT_pkt s) h.1 hf).1
+  have haf := Pkt_af_decoded (PMT_pkt s) h.1
+  obtain ⟨hw, h1, h2, h3, h4, h5, h6, h7, h8, hd, hss, hl⟩ := h
+  have hpay : PMT_payload (PMT_decoded s) = PMT_payload s := rfl
+  constructor
+  · exact ⟨hwd, h1, h2, h3, h4, h5, h6, h7, h8, hd, hss, hl⟩
+  · have e1 : Pkt_hdr (PMT_pkt (PMT_decoded s)) = Pkt_hdr (PMT_pkt s) := rfl
+    have e2 : Pkt_af (PMT_pkt (PMT_decoded s)) = Pkt_af (Pkt_decoded (PMT_pkt s)) := rfl
+    have e3 : (PMT_pkt (PMT_decoded s)).payload = (PMT_pkt s).payload := rfl
+    unfold Pkt_bytes Pkt_used
+    rw [e1, e2, e3, haf]
+
 end Acra.Lemmas.PMT
